@@ -226,13 +226,26 @@ func (w *fw) paragraph(depth int) string {
 	}
 	n := w.r.Range(0, 4)
 	for i := 0; i < n; i++ {
-		k := w.r.Intn(12)
+		k := w.r.Intn(16)
 		if w.opts.Simple {
 			k = 0
 		}
 		switch k {
 		default:
 			b.WriteString(w.run(w.word()))
+		case 12:
+			// further inline containers whose runs are ordinary visible text
+			name := []string{"customXml", "dir", "bdo", "moveTo"}[w.r.Intn(4)]
+			w.feature(name)
+			w.wrap = name
+			attrs := map[string]string{"customXml": w.at("uri", "urn:x") + w.at("element", "e"), "dir": w.at("val", "rtl"), "bdo": w.at("val", "ltr"), "moveTo": w.at("id", "9") + w.at("author", "A")}[name]
+			b.WriteString(`<` + w.el(name) + attrs + `>` + w.run(w.word()) + "</" + w.el(name) + ">")
+			w.wrap = ""
+		case 13:
+			// tracked deletion / move source: the text is carried by w:delText and is not visible text; it must not become visible
+			name := []string{"del", "moveFrom"}[w.r.Intn(2)]
+			w.feature(name)
+			b.WriteString(`<` + w.el(name) + w.at("id", "8") + w.at("author", "A") + `><` + w.el("r") + `><` + w.el("delText") + `>gone` + Word(w.r, 1, 4) + `</` + w.el("delText") + `></` + w.el("r") + `></` + w.el(name) + ">")
 		case 5:
 			w.feature("hyperlink-external")
 			id := w.rel("hyperlink", "http://example.com/?a=1&b="+Word(w.r, 1, 4), true)
